@@ -13,7 +13,7 @@ from typing import List
 
 from vlib import api, lbytes, lift
 from vlib.api import H, cover
-from vlib.lift import b, t
+from vlib.lift import b
 
 from twisted.python import filepath as _fp
 from twisted.python.filepath import FilePath, InsecurePath
@@ -233,7 +233,7 @@ def _unquote_l(x):
     return lbytes.LBytes(_unquote_text(lbytes._s(x)))
 
 
-from twisted.web import resource as _resource, server as _server, static as _static  # noqa: E402
+from twisted.web import resource as _resource, server as _server  # noqa: E402
 
 LS = lift.lift("twisted.web.static", names=["File"])
 LR = lift.lift("twisted.web.server", names=["Request"], overrides={"unquote": _unquote_l})
